@@ -101,7 +101,8 @@ func runFileSink(rc *RunCtx, prop string, crash bool, faults bool) {
 		sink.MaxDuration = 30 * time.Millisecond
 	}
 	sink.TimestampOnlyOnRotate = tp.Choose(2, "tsonrot") == 0
-	sink.Mode = []os.FileMode{0, 0o640, 0o600, 0o644}[tp.Choose(4, "mode")]
+	// (0666 / 0664 / 0660 carry bits that the process umask would clear from a mode given to open(2))
+	sink.Mode = []os.FileMode{0, 0o640, 0o600, 0o644, 0o666, 0o664, 0o660}[tp.Choose(7, "mode")]
 	format := ""
 	if tp.Choose(3, "format") == 0 {
 		format = "fmt1"
